@@ -57,6 +57,11 @@ var c03DelimPool = []jetrun.Delims{
 	{CLeft: "#", CRight: "#/"},
 	{Left: "<%", Right: "%>", CLeft: "<#--", CRight: "--#>"},
 	{Left: "[[", Right: "]", CLeft: "[*", CRight: "*]]"},
+	// comment markers that begin with the action delimiter (ERB, mustache): the longer one is meant
+	{Left: "<%", Right: "%>", CLeft: "<%#", CRight: "#%>"},
+	{CLeft: "{{!", CRight: "}}"},
+	{CLeft: "{{!--", CRight: "--}}"},
+	{Left: "[[", Right: "]]", CLeft: "[[#", CRight: "]]"},
 }
 
 func genDelims(t *rapid.T) jetrun.Delims {
